@@ -4,6 +4,9 @@ package model
 
 import (
 	"bytes"
+	"fmt"
+	"math"
+	"reflect"
 
 	"github.com/richardmorrey/flap/pkg/db"
 	"github.com/richardmorrey/flap/pkg/flap"
@@ -190,5 +193,96 @@ func VerifGobRoundTrip(kind string, seed uint64) (deterministic bool, roundtrip 
 	}
 	roundtrip = bytes.Equal(raw, b3.Bytes())
 	size = len(raw)
+	if verifGobValueDone != nil {
+		verifGobValueDone(v, fresh)
+	}
 	return
+}
+
+// set by VerifGobValueRoundTrip while it runs
+var verifGobValueDone func(v, fresh db.Serialize)
+
+// VerifGobValueRoundTrip is VerifGobRoundTrip plus a comparison of VALUES: the decoded record must be
+// deeply equal to the encoded one in every field, exported or not (an empty list may come back absent).
+// Not safe for concurrent use.
+func VerifGobValueRoundTrip(kind string, seed uint64) (deterministic bool, roundtrip bool, equal bool, diff string, err error) {
+	verifGobValueDone = func(v, fresh db.Serialize) {
+		equal, diff = verifDeepEq(reflect.ValueOf(v), reflect.ValueOf(fresh), kind)
+	}
+	defer func() { verifGobValueDone = nil }()
+	deterministic, roundtrip, _, err = VerifGobRoundTrip(kind, seed)
+	return
+}
+
+func verifDeepEq(a, b reflect.Value, path string) (bool, string) {
+	if a.Kind() != b.Kind() {
+		return false, path + ": kinds differ"
+	}
+	switch a.Kind() {
+	case reflect.Ptr, reflect.Interface:
+		if a.IsNil() || b.IsNil() {
+			if a.IsNil() && b.IsNil() {
+				return true, ""
+			}
+			return false, path + ": nil on one side"
+		}
+		return verifDeepEq(a.Elem(), b.Elem(), path)
+	case reflect.Struct:
+		for i := 0; i < a.NumField(); i++ {
+			if ok, d := verifDeepEq(a.Field(i), b.Field(i), path+"."+a.Type().Field(i).Name); !ok {
+				return false, d
+			}
+		}
+		return true, ""
+	case reflect.Slice, reflect.Array:
+		if a.Len() != b.Len() {
+			return false, fmt.Sprintf("%s: %d elements encoded, %d decoded", path, a.Len(), b.Len())
+		}
+		for i := 0; i < a.Len(); i++ {
+			if ok, d := verifDeepEq(a.Index(i), b.Index(i), fmt.Sprintf("%s[%d]", path, i)); !ok {
+				return false, d
+			}
+		}
+		return true, ""
+	case reflect.Float32, reflect.Float64:
+		if math.Float64bits(a.Float()) != math.Float64bits(b.Float()) {
+			return false, fmt.Sprintf("%s: %v encoded, %v decoded", path, a.Float(), b.Float())
+		}
+		return true, ""
+	case reflect.Int, reflect.Int8, reflect.Int16, reflect.Int32, reflect.Int64:
+		if a.Int() != b.Int() {
+			return false, fmt.Sprintf("%s: %d encoded, %d decoded", path, a.Int(), b.Int())
+		}
+		return true, ""
+	case reflect.Uint, reflect.Uint8, reflect.Uint16, reflect.Uint32, reflect.Uint64:
+		if a.Uint() != b.Uint() {
+			return false, fmt.Sprintf("%s: %d encoded, %d decoded", path, a.Uint(), b.Uint())
+		}
+		return true, ""
+	case reflect.String:
+		if a.String() != b.String() {
+			return false, fmt.Sprintf("%s: %q encoded, %q decoded", path, a.String(), b.String())
+		}
+		return true, ""
+	case reflect.Bool:
+		if a.Bool() != b.Bool() {
+			return false, path + ": booleans differ"
+		}
+		return true, ""
+	case reflect.Map:
+		if a.Len() != b.Len() {
+			return false, fmt.Sprintf("%s: %d map entries encoded, %d decoded", path, a.Len(), b.Len())
+		}
+		for _, k := range a.MapKeys() {
+			bv := b.MapIndex(k)
+			if !bv.IsValid() {
+				return false, fmt.Sprintf("%s: key %v lost", path, k)
+			}
+			if ok, d := verifDeepEq(a.MapIndex(k), bv, fmt.Sprintf("%s[%v]", path, k)); !ok {
+				return false, d
+			}
+		}
+		return true, ""
+	}
+	return true, ""
 }
